@@ -1,7 +1,7 @@
 """Shared by C01 and C02: classification of generated pipelines by Model/SemStrict.v (inside Coq), the Pandas-vs-SQL oracle,
 the decision rule (insensitive / accepted convention / listed finding / violation), generators of the property's own shapes.
 
-Classification codes (Model/SemStrictCases.v):  1..11 causes of the strict walk, 21..31 causes of the multiset walk (+20),
+Classification codes (Model/SemStrictCases.v):  1..10 causes of the strict walk, 21..30 causes of the multiset walk (+20),
 100 models differ as multisets, 101 models differ in row order (ordered cases), 102 PostgreSQL model differs from Pandas,
 201..209 the single conventions of SQLite that change the Pandas model's result."""
 import json, os, re, subprocess, time, copy
@@ -9,7 +9,7 @@ import lib, pipes, semconv, execcorr as X
 
 CAUSE = {1: "null_operand_of_comparison", 2: "not_equal_null_in_row_filter", 3: "null_operand_of_and_or", 4: "null_operand_of_maximum_minimum",
          5: "null_operand_of_fmax_fmin", 6: "aggregate_over_no_values", 7: "running_window_at_null", 8: "null_sort_key", 9: "sort_ties",
-         10: "null_join_keys_both_sides", 11: "full_join_null_key"}
+         10: "null_join_keys_both_sides"}
 FIELD = {1: "cmp3", 2: "logic3", 3: "minmax_ignore_null", 4: "fminmax_propagate", 5: "empty_agg_null", 6: "running_carry",
          7: "nulls_first_asc", 8: "nulls_first_desc", 9: "join_null_match"}
 # which causes can make which convention matter (used when no single convention explains a difference)
@@ -104,11 +104,11 @@ def classify(name, entries, per_file=40, timeout=1500):
 # ------------------------------------------------------------------------------------------------ reading a classification
 
 def strict_causes(codes):
-    return sorted(c for c in codes if 1 <= c <= 11)
+    return sorted(c for c in codes if 1 <= c <= 10)
 
 
 def bag_causes(codes):
-    return sorted(c - 20 for c in codes if 21 <= c <= 31)
+    return sorted(c - 20 for c in codes if 21 <= c <= 30)
 
 
 def fields(codes):
@@ -618,11 +618,6 @@ def run_check(chk, prop, variants, n, corpus_cases, finding_cases, deep=False, e
             # a convention case is reached
             explained = corr_ok and (100 in cd or (ordered and 101 in cd))
             fs = fields(cd) or sorted({CAUSE_FIELD[x] for x in rel if x in CAUSE_FIELD})
-            if 11 in cd and sql_backend in (bad.get(id(c)) or set()) and "pandas" not in (bad.get(id(c)) or set()):
-                # FULL join with a null key: the SQLite dialect's emulation is known not to follow the model
-                chk.impl_violation(f"{v[0]} and Pandas differ ({why}) on a FULL join with a null key", describe(c, v, ra, rv, cd, ordered, why),
-                                   {"cause": "full_join_null_key", "dialect": v[1]})
-                continue
             if not explained and 9 in strict_causes(cd):
                 # a limit / an order-sensitive window over tied keys: the result is under-determined (which of the tied rows comes first is
                 # not defined by the pipeline); the generators avoid it, a stray case is counted
@@ -647,9 +642,6 @@ def run_check(chk, prop, variants, n, corpus_cases, finding_cases, deep=False, e
     for i in failing:
         c, b, res = items[i]
         cd = code_of.get(id(c))
-        if cd is not None and 11 in cd and b != "pandas":
-            chk.dist("known_model_gap_full_join_null_key")
-            continue
         if cd is not None and 9 in cd:
             chk.dist("under_determined_by_ties_model")          # the model breaks ties by input order, a backend need not
             continue
